@@ -592,8 +592,12 @@ impl Version {
                 .collect::<Vec<_>>();
 
             if level_idx == dest_level {
-                if let Some(run) = Run::new(affected_tables.clone()) {
-                    runs.insert(0, run);
+                // NOTE: The moved tables may come from several (overlapping) runs,
+                // so they are inserted one by one (in read order) and packed by `optimize_runs`
+                for (idx, table) in affected_tables.iter().enumerate() {
+                    if let Some(run) = Run::new(vec![table.clone()]) {
+                        runs.insert(idx, run);
+                    }
                 }
             }
 
